@@ -233,3 +233,96 @@ def str_match_arms(body, subject_suffix):
                         tt = tg
                 out[c[1]] = (sb, tt)
     return out
+
+
+# ---------------------------------------------------------------- sibling rule on the history lookups
+HISTORY_FIELDS = {"admins": "date", "users": "date", "user_admins": "date", "rights": "valid_from"}
+LOOKUP_FNS = ["database::room::Room::is_admin", "database::room::Room::is_user_valid_at", "database::room::Authorisation::is_user_valid_at",
+              "database::room::Authorisation::can_admin_users", "database::room::Authorisation::get_right_at"]
+
+
+def history_lookup_rule(P, C, rule):
+    """Every evaluation of a history vector at a date has one shape in this code base (6 sibling sites):
+    `entries.iter().rev().find(|e| e.<date field> <= date)` followed by a read of the found entry's flag.
+    A site that deviates (another combinator, another comparison, a flag tested inside the search) computes a
+    different function of the history than its siblings: 'the latest entry at or before the date decides'."""
+    n = 0
+    for fn in LOOKUP_FNS:
+        b = P.body(fn, required=False)
+        if b is None:
+            C.anchor_missing(rule, fn, "missing")
+            continue
+        C.saw(b)
+        short = mir.short(b.id)
+        for gi, gt in b.calls_to(r"HashMap::get$"):
+            fld = field_path(b.call_args(gi)[0]).split(".")[-1]
+            if fld not in HISTORY_FIELDS:
+                continue
+            n += 1
+            key = "%s:%s" % (short, fld)
+            # consumers of the looked-up vector
+            uses = []
+            for bi, t in b.live_calls():
+                if bi == gi:
+                    continue
+                a = b.call_args(bi, expand_vars=True)
+                if a and any(s[0] == "call" and s[3] == gi for s in mir.subterms(a[0])):
+                    uses.append((bi, callee_name(t), a))
+            names = [u[1].split("::")[-1] for u in uses]
+            finds = [u for u in uses if u[1].endswith("Iterator::find") or u[1].endswith("::find")]
+            allowed = {"deref", "iter", "rev", "find"}
+            stray = [x for x in names if x not in allowed]
+            ok = len(finds) == 1 and not stray
+            det = "combinators applied to self.%s.get(..): %s" % (fld, names)
+            if ok:
+                f = finds[0]
+                recv = f[2][0]
+                ok = mir.has_call(recv, r"Iterator::rev$|::rev$") is not None and mir.has_call(recv, r"slice::.*iter$|::iter$") is not None
+                clos = f[2][1]
+                cb = P.bodies.get(clos[2]) if clos[0] == "aggr" and clos[1] == "closure" else None
+                cmp_ok = False
+                if cb is not None and len(cb.live_blocks()) == 1:
+                    sts = [st for st in cb.blocks[0]["s"] if st["lhs"] == [0]]
+                    if len(sts) == 1 and sts[0]["rv"]["r"] == "bin" and sts[0]["rv"]["op"] == "Le":
+                        l = cb.operand_term(sts[0]["rv"]["a"])
+                        r = cb.operand_term(sts[0]["rv"]["b"])
+                        cmp_ok = field_path(l).split(".")[-1] == HISTORY_FIELDS[fld] and r[0] in ("upvar",) or (field_path(r).split(".")[-1] == "date" and mir.strip_refs(r)[0] == "upvar")
+                ok = ok and cmp_ok
+                det += "; reversed iteration with `entry.%s <= date` as the only test: %s" % (HISTORY_FIELDS[fld], cmp_ok)
+                # the decision is the found entry's flag
+                if fld != "rights":
+                    flag = False
+                    for bi2 in b.live_blocks():
+                        for si2, st2 in enumerate(b.blocks[bi2]["s"]):
+                            t2 = b.def_term(bi2, si2, st2["rv"], 0, expand_vars=True)
+                            if t2[0] == "field" and t2[2] == "enabled" and any(s[0] == "call" and s[3] == f[0] for s in mir.subterms(t2)):
+                                flag = True
+                        tt = b.blocks[bi2]["t"]
+                        if tt["k"] == "switch":
+                            t2 = b.switch_term(bi2, expand_vars=True)
+                            if t2[0] == "field" and t2[2] == "enabled" and any(s[0] == "call" and s[3] == f[0] for s in mir.subterms(t2)):
+                                flag = True
+                    ok = ok and flag
+                    det += "; verdict = found entry's `enabled`: %s" % flag
+            C.ob(rule, "history-lookup:" + key, ok, b.loc(gi), det)
+    C.floor(rule, "history lookups", n, 6)
+    # Authorisation::can reads the flags of the entry returned by get_right_at (entity first, then wildcard)
+    b = P.body("database::room::Authorisation::can", required=False)
+    if b is not None:
+        C.saw(b)
+        gr = b.calls_to(r"Authorisation::get_right_at$")
+        wild = [bi for bi, t in gr if any(mir.strip_refs(a)[0] == "const" and (mir.strip_refs(a)[1] == "*" or str(mir.strip_refs(a)[3]).endswith("WILDCARD_ENTITY")) for a in b.call_args(bi))]
+        C.ob(rule, "right-lookup:entity-then-wildcard", len(gr) == 2 and len(wild) == 1, b.loc(), "the entity's own right entry decides; the wildcard entry only when the entity has none")
+    # Room::can combines membership at the date with the group's right at the date
+    b = P.body("database::room::Room::can", required=False)
+    if b is not None:
+        C.saw(b)
+        ia = b.calls_to(r"Room::is_admin$")
+        iv = b.calls_to(r"Authorisation::is_user_valid_at$")
+        ac = b.calls_to(r"Authorisation::can$")
+        same_date = True
+        for bi, t in ia + iv + ac:
+            a = b.call_args(bi)
+            same_date = same_date and any(field_path(x) == "date" for x in a)
+        C.ob(rule, "room-can:membership-and-right-at-the-same-date", len(ia) == 1 and len(iv) == 1 and len(ac) == 1 and same_date, b.loc(),
+             "Room::can = (is_admin(user,date) or group.is_user_valid_at(user,date)) and group.can(entity,date,right)")
